@@ -14,6 +14,10 @@ CONFIGS = {
               ("MC_C02_q", "MC_C02_str.cfg", {"MaxSegs": 2}, ["eager", "lazy"], 1),
               # inheritance across segments of different byte order
               ("MC_C02_q", "MC_C02_be.cfg", {"MaxSegs": 2}, ["eager", "lazy"], 4),
+              # a channel restated with another type (forbidden), over types with and without a NumPy counterpart
+              ("MC_C02_q", "MC_C02_q.cfg", {"MaxSegs": 2, "NVals": "{1}", "KVals": "{1}", "TypeSet": "c_TypeSetTC",
+                                            "Width": "c_WidthTC", "Unsized": "c_UnsizedStr", "ObjLists": "c_ObjListsStr",
+                                            "Forbidden": "c_ForbiddenTC"}, ["eager", "lazy"], 1),
               # inheritance across segments of different raw data layout (interleaved / contiguous)
               ("MC_C02_q", "MC_C02_q.cfg", {"MaxSegs": 2, "NVals": "{2}", "KVals": "{1, 2}", "Layouts": '{"contig", "il"}'},
                ["eager", "lazy"], 4),
